@@ -278,7 +278,9 @@ class Run(RunBase):
             self.seams.open_shim.arm(fault["ioerr"])
             self.faults["F-ioerr"] += 1
         try:
-            do_write(w, path, mode, method, validate)
+            import pathlib
+
+            do_write(w, pathlib.Path(path) if op.get("path_form") == "Path" else path, mode, method, validate)
             exc = None
         except Exception as e:  # noqa
             exc = e
@@ -454,7 +456,7 @@ def _writer_user(rng, run, name, cfg):
                   "answer": rng.choice(["y", "n"]),
                   "method": "scenario" if rng.chance(0.3) else "full",
                   "validate": rng.chance(0.3) if cfg["buggify_validate"] else False,
-                  "readback": rng.chance(cfg["p_readback"])}
+                  "readback": rng.chance(cfg["p_readback"]), "path_form": rng.choice(["str", "str", "Path"])}
             r = rng.random()
             if "F-nodir" in cfg["faults"] and r < cfg["p_fault"]:
                 op["fault"] = {"nodir": True}
